@@ -4,6 +4,7 @@
 mod api;
 mod checks;
 mod ctx;
+mod e5;
 mod envrng;
 mod explore;
 mod pq;
